@@ -177,6 +177,7 @@ func e1BaseGrid(tier string) []e1Grid {
 		{mcfg("fmp4", false, 3, "h264b"), "reorder"},
 		{mcfg("ll", false, 7, "h264b"), "reorder"},
 		{mcfg("mpegts", false, 3, "h264k"), "timing"},
+		{mcfg("mpegts", false, 3, "h264bk"), "reorder"},
 		{mcfg("mpegts", false, 3, "h264k", "aac44"), "inter"},
 		{mcfg("fmp4", false, 3, "h264", "aacsbr"), "inter"},
 		{mcfg("ll", false, 7, "aacsbr"), "audio"},
